@@ -15,6 +15,9 @@ sys.dont_write_bytecode = True
 VERIF = os.path.dirname(os.path.dirname(os.path.abspath(__file__)))
 REPO = os.path.realpath(os.environ.get('TSV_REPO', '/repo'))
 DEPS = os.path.join(VERIF, '.deps')
+# where evidence/ and replays/ are written (the self-test redirects this so
+# that runs against scratch copies never touch the committed evidence)
+OUT = os.environ.get('TSV_OUT', VERIF)
 PYTHON = '/venv/bin/python'
 WHEELS = '/opt/veriftools/wheels'
 GUARD = 'TEXSOUP_VERIF'
